@@ -12,15 +12,17 @@ Mirrors, branch by branch and with Python exceptions as values:
   `parse_parameter_strings` (defaults dictionary, dropping of foreign defaults);
 * keyword-argument binding of `Cls(**attributes)` (missing / unexpected argument → `TypeError`; cannot
   happen for tables aligned with their constructors, which the generated ones are);
-* the `_validate_*` helpers of the transport constructors, `_is_valid_hostname`
+* an interpreter (`Cond.holds`, `exec`) for the translated `__init__` bodies, `_is_valid_hostname`
   (the two regexes) and `_is_valid_ipaddress` (glibc `inet_pton` for AF_INET / AF_INET6;
   its `ValueError` on an embedded NUL is caught like `OSError`);
 * `create_transport` (dispatch on the interface name, platform branch);
 * `QMI_UsbTmcTransport._format_resources` and the renderers for the descriptor formats
   QMI itself produces.
 
-The parser tables, constructor signatures and the reserved UDP port are *parameters*
-(`Env`); `Gen/TransportTables.lean` instantiates them from the current source on every run.
+The parser tables, the constructor signatures and the `__init__` bodies — which validator test (with its literal
+bounds and constants) is applied to which parameter, in which order, and which attribute stores which parameter,
+`super().__init__` chains and the `_validate_*` helpers inlined — are *parameters* (`Env`);
+`Gen/TransportTables.lean` instantiates them from the current source (live objects and AST) on every run.
 
 Strings are lists of Unicode scalar values (`List Char`); a float parameter is carried as
 its validated literal (the harness compares through Python's own `float()`).
@@ -37,6 +39,7 @@ inductive PyExc
   | descriptor   -- QMI_TransportDescriptorException
   | valueError   -- ValueError
   | typeError    -- TypeError
+  | attributeError  -- AttributeError
   deriving DecidableEq, Repr
 
 /-- result of a Python call: a value or the exception that escaped -/
@@ -354,15 +357,32 @@ structure Param where
   required : Bool
   deriving DecidableEq, Repr
 
-inductive Kind | serial | udp | tcp | usbtmc | gpib | vxi11
+/-- the test of a `_validate_*` helper, `if <cond>: raise QMI_TransportDescriptorException(...)`, on one value -/
+inductive Cond
+  | lt (k : Int)                      -- `x < k`
+  | gt (k : Int)                      -- `x > k`
+  | eq (k : Int)                      -- `x == k`
+  | or (a b : Cond)                   -- `a or b`
+  | notInStrs (l : List Str)          -- `x not in ('N', 'E', 'O')`
+  | notStopbits                       -- `x not in (1.0, 1.5, 2.0)`
+  | notBool                           -- `x not in (True, False)`
+  | notDevice (up pre : Str)          -- `not (x.upper().startswith(up) or x.startswith(pre))`
+  | badHost                           -- `(not _is_valid_hostname(x)) and (not _is_valid_ipaddress(x))`
   deriving DecidableEq, Repr
 
-/-- constructor signature: class name, which `__init__` body (validators) it runs, and the keyword
-arguments it accepts with their defaults (`none` = required) -/
+/-- one effect of an `__init__` body on the constructor parameters (translated from the AST, `super().__init__`
+and the `_validate_*` helpers inlined) -/
+inductive Stmt
+  | validate (p : Str) (c : Cond)     -- raise the descriptor error if `c` holds of parameter `p`
+  | resolveLocalhost (p : Str)        -- `p = socket.gethostbyname(p) if p == "localhost" else p`
+  | store (attr : Str) (ps : List Str)   -- `self.attr = p`  /  `self.attr = (p, q)`
+  deriving DecidableEq, Repr
+
+/-- constructor: class name, keyword arguments with their defaults (`none` = required), and the `__init__` body -/
 structure Ctor where
   cls : Str
-  kind : Kind
   args : List (Str × Option PyVal)
+  prog : List Stmt
   deriving DecidableEq, Repr
 
 structure Iface where
@@ -375,7 +395,6 @@ structure Iface where
 
 structure Env where
   ifaces : List Iface          -- in the order of the `if/elif` chain of create_transport
-  udpReserved : Int            -- QMI_Context.DEFAULT_UDP_RESPONDER_PORT
   localhostAddr : Str          -- what `socket.gethostbyname("localhost")` answers (environment)
   deriving Repr
 
@@ -507,12 +526,6 @@ def bindArgs (c : Ctor) (p : Dict) : Res (List (Str × PyVal)) :=
 
 /-! ## Value validation -/
 
-def sDevice : Str := ['d','e','v','i','c','e']
-def sBaudrate : Str := ['b','a','u','d','r','a','t','e']
-def sBytesize : Str := ['b','y','t','e','s','i','z','e']
-def sParity : Str := ['p','a','r','i','t','y']
-def sStopbits : Str := ['s','t','o','p','b','i','t','s']
-def sRtscts : Str := ['r','t','s','c','t','s']
 def sHost : Str := ['h','o','s','t']
 def sPort : Str := ['p','o','r','t']
 def sVendorid : Str := ['v','e','n','d','o','r','i','d']
@@ -521,48 +534,19 @@ def sLocalhost : Str := ['l','o','c','a','l','h','o','s','t']
 
 def arg (a : List (Str × PyVal)) (n : Str) : PyVal := (dget a n).getD .none
 
-def Res.andThen (r : Res Unit) (k : Res Unit) : Res Unit :=
-  match r with
-  | .ok _ => k
-  | .err e => .err e
+def asciiUpper (c : Char) : Char := if isAsciiLower c then Char.ofNat (c.toNat - 32) else c
 
-/-- `device.upper().startswith("COM") or device.startswith("/")` -/
-def vDevice : PyVal → Res Unit
-  | .str d =>
-    let com := match d with
-      | a :: b :: c :: _ => asciiLower a == 'c' && asciiLower b == 'o' && asciiLower c == 'm'
-      | _ => false
-    let slash := match d with | a :: _ => a == '/' | [] => false
-    if com || slash then .ok () else .err .descriptor
-  | _ => .err .typeError
+/-- `x.upper().startswith(up)` for an upper-case ASCII `up` none of whose letters is produced by upper-casing a
+non-ASCII character (checked by the translator) -/
+def upperStartsWith : Str → Str → Bool
+  | [], _ => true
+  | _ :: _, [] => false
+  | u :: us, c :: cs => asciiUpper c == u && upperStartsWith us cs
 
-def vBaudrate : PyVal → Res Unit
-  | .int b => if b < 1 then .err .descriptor else .ok ()
-  | _ => .err .typeError
-
-def vBytesize : PyVal → Res Unit
-  | .int b => if b < 5 || b > 8 then .err .descriptor else .ok ()
-  | _ => .err .typeError
-
-def vParity : PyVal → Res Unit
-  | .str p => if p = ['N'] || p = ['E'] || p = ['O'] then .ok () else .err .descriptor
-  | _ => .err .typeError
-
-def vStopbits : PyVal → Res Unit
-  | .flt lit =>
-    (match floatParse lit with
-     | some f => if floatIsStopbits f then .ok () else .err .descriptor
-     | none => .err .typeError)
-  | .int i => if i = 1 || i = 2 then .ok () else .err .descriptor
-  | _ => .err .typeError
-
-def vRtscts : PyVal → Res Unit
-  | .bool _ => .ok ()
-  | _ => .err .typeError
-
-def vId : PyVal → Res Unit
-  | .int i => if i < 0 || i > 65535 then .err .descriptor else .ok ()
-  | _ => .err .typeError
+def startsWith : Str → Str → Bool
+  | [], _ => true
+  | _ :: _, [] => false
+  | u :: us, c :: cs => c == u && startsWith us cs
 
 /-! ### host syntax -/
 
@@ -672,45 +656,67 @@ def validateHost (h : Str) : Res Unit :=
   else if isValidIp h then .ok ()
   else .err .descriptor
 
-def vPort (E : Env) (udp : Bool) : PyVal → Res Unit
-  | .int p =>
-    if p < 1 || p > 65535 then .err .descriptor
-    else if udp && p = E.udpReserved then .err .descriptor
-    else .ok ()
-  | _ => .err .typeError
+/-- does the test hold of the value?  Python semantics for every kind of value a parameter can carry (the string gives
+values of the declared type; a caller's defaults dictionary can hold anything): ordering comparisons with `str` / `None`
+raise `TypeError`, `==` and `in` never raise, `.upper()` on a non-string raises `AttributeError`, `len()` of a
+non-string `TypeError`.  A float where an int / bool is declared is outside the modelled domain (`typeError` placeholder). -/
+def Cond.holds : Cond → PyVal → Res Bool
+  | .lt k, .int i => .ok (i < k)
+  | .lt k, .bool b => .ok ((if b then 1 else 0) < k)
+  | .lt _, _ => .err .typeError
+  | .gt k, .int i => .ok (i > k)
+  | .gt k, .bool b => .ok ((if b then 1 else 0) > k)
+  | .gt _, _ => .err .typeError
+  | .eq k, .int i => .ok (i = k)
+  | .eq k, .bool b => .ok ((if b then 1 else 0) = k)
+  | .eq _, .flt _ => .err .typeError
+  | .eq _, _ => .ok false
+  | .or a b, v =>
+    (match a.holds v with
+     | .err e => .err e
+     | .ok true => .ok true
+     | .ok false => b.holds v)
+  | .notInStrs l, .str s => .ok (!(l.contains s))
+  | .notInStrs _, _ => .ok true
+  | .notStopbits, .flt lit =>
+    (match floatParse lit with
+     | some f => .ok (!(floatIsStopbits f))
+     | none => .err .typeError)
+  | .notStopbits, .int i => .ok (!(i = 1 || i = 2))
+  | .notStopbits, .bool b => .ok (!b)
+  | .notStopbits, _ => .ok true
+  | .notBool, .bool _ => .ok false
+  | .notBool, .int i => .ok (!(i = 0 || i = 1))
+  | .notBool, .flt _ => .err .typeError
+  | .notBool, _ => .ok true
+  | .notDevice up pre, .str d => .ok (!(upperStartsWith up d || startsWith pre d))
+  | .notDevice _ _, _ => .err .attributeError
+  | .badHost, .str h => .ok (!(isValidHostname h) && !(isValidIp h))
+  | .badHost, _ => .err .typeError
 
-/-- the `__init__` bodies: validation in source order; result = the values the object stores -/
-def construct (E : Env) (kind : Kind) (a : List (Str × PyVal)) : Res (List (Str × PyVal)) :=
-  match kind with
-  | .serial =>
-    (match (vDevice (arg a sDevice)).andThen ((vBaudrate (arg a sBaudrate)).andThen
-            ((vBytesize (arg a sBytesize)).andThen ((vParity (arg a sParity)).andThen
-            ((vStopbits (arg a sStopbits)).andThen (vRtscts (arg a sRtscts)))))) with
-     | .ok _ => .ok a
-     | .err e => .err e)
-  | .tcp | .udp =>
-    (match arg a sHost with
-     | .str h0 =>
-       let h := if h0 = sLocalhost then E.localhostAddr else h0
-       (match (validateHost h).andThen (vPort E (kind == .udp) (arg a sPort)) with
-        | .ok _ => .ok (a.map (fun kv => if kv.1 = sHost then (kv.1, .str h) else kv))
-        | .err e => .err e)
-     | _ => .err .typeError)
-  | .usbtmc =>
-    (match (vId (arg a sVendorid)).andThen (vId (arg a sProductid)) with
-     | .ok _ => .ok a
-     | .err e => .err e)
-  | .gpib => .ok a
-  | .vxi11 =>
-    (match arg a sHost with
-     | .str h => (match validateHost h with | .ok _ => .ok a | .err e => .err e)
-     | _ => .err .typeError)
+/-- `__init__`: the statements in source order over the bound arguments; result = attribute ↦ stored value(s) -/
+def exec (E : Env) : List Stmt → List (Str × PyVal) → List (Str × List PyVal) → Res (List (Str × List PyVal))
+  | [], _, acc => .ok acc
+  | .validate p c :: r, env, acc =>
+    (match c.holds (arg env p) with
+     | .err e => .err e
+     | .ok true => .err .descriptor
+     | .ok false => exec E r env acc)
+  | .resolveLocalhost p :: r, env, acc =>
+    (match arg env p with
+     | .str h => exec E r (dset env p (.str (if h = sLocalhost then E.localhostAddr else h))) acc
+     | _ => exec E r env acc)
+  | .store a ps :: r, env, acc => exec E r env (acc ++ [(a, ps.map (arg env))])
+
+def construct (E : Env) (c : Ctor) (a : List (Str × PyVal)) : Res (List (Str × List PyVal)) := exec E c.prog a []
 
 /-! ## `create_transport` -/
 
+/-- the object `create_transport` returns: its class and, per attribute the constructor assigns from its parameters,
+the stored value(s) (a tuple attribute such as `_address` holds several) -/
 structure Transport where
   cls : Str
-  attrs : List (Str × PyVal)
+  attrs : List (Str × List PyVal)
   deriving DecidableEq, Repr
 
 def Iface.ctor (I : Iface) (win : Bool) : Option Ctor := if win then I.ctorWin else I.ctorLinux
@@ -733,7 +739,7 @@ def createTransport (E : Env) (win : Bool) (s : Str) (defaults : List (Str × Py
           match bindArgs c p with
           | .err e => .err e
           | .ok a =>
-            match construct E c.kind a with
+            match construct E c a with
             | .err e => .err e
             | .ok attrs => .ok { cls := c.cls, attrs := attrs }
 
